@@ -260,6 +260,12 @@ func (h *handler1) handleClientPublish(ctx context.Context, snPublish *snPkts1.P
 	default:
 		return fmt.Errorf("invalid topic id type %d", snPublish.TopicIDType)
 	}
+	// A topic name in an MQTT PUBLISH must not be empty and must not contain
+	// wildcard characters (a client can REGISTER any name and a short topic
+	// name can be any two bytes).
+	if topic == "" || hasWildcard(topic) {
+		return fmt.Errorf("invalid topic name %#v in PUBLISH", topic)
+	}
 	if snPublish.QOS == 1 {
 		h.transactions.Store(msgID, newClientPublishQOS1Transaction(ctx, h, msgID, snPublish.TopicID))
 	}
